@@ -114,7 +114,11 @@ class S(object):
         return a, b
 
     def _bin(self, other, f, swap=False):
-        if isinstance(other, C) or isinstance(other, complex):
+        if isinstance(other, complex):
+            other = C.lift(other)
+            a, b = (other, C.lift(self)) if swap else (C.lift(self), other)
+            return f(a, b)
+        if isinstance(other, C):
             return NotImplemented
         if not isinstance(other, (S, bool, int, float, Fraction)):
             return NotImplemented
@@ -703,6 +707,23 @@ class Lower(object):
             if isinstance(c, (int, float)) and c == 1:
                 return [(1, _ONE)]
             return [(c, _ONE)]
+        if isinstance(v, VPw) and v.fn == 'mul' and all(isinstance(a, V) for a in v.args):
+            # pointwise product is bilinear: expand over both factors, factors in canonical order
+            la, lb = self.linform(v.args[0]), self.linform(v.args[1])
+            if len(la) == 1 and len(lb) == 1 and la[0][1] is v.args[0] and lb[0][1] is v.args[1]:
+                return [(1, v)]
+            out = []
+            for c1, a1 in la:
+                for c2, a2 in lb:
+                    f = sorted([a1, a2], key=lambda t: repr(t.key()))
+                    if f[0] is _ONE or (isinstance(f[0], VConst) and f[0].key() == _ONE.key()):
+                        prod = f[1]
+                    elif isinstance(f[1], VConst) and f[1].key() == _ONE.key():
+                        prod = f[0]
+                    else:
+                        prod = VPw('mul', (f[0], f[1]))
+                    out.append((_sc(c1) * _sc(c2), prod))
+            return out
         if isinstance(v, VApp) and v.op.linear and len(v.args) == 1 and isinstance(v.args[0], V):
             out = []
             anti = getattr(v.op, 'antilinear', False)
